@@ -121,10 +121,14 @@ def LevelRel (mem : List (Int × Val)) (csc : List (String × String)) (ssc : Li
     | none, none => True
     | _, _ => False
 
+/-- Level by level, innermost first. The compiler may have *more* (outer) levels than the
+specification's activation — the module-level scope around a function — provided they bind no
+tracked identifier. -/
 def ScopesRel (mem : List (Int × Val)) : CScopes → SScopes → Prop
   | [], [] => True
   | c :: cs, s :: ss => LevelRel T σ lim mp mem c s ∧ ScopesRel mem cs ss
-  | _, _ => False
+  | c :: cs, [] => (∀ x ∈ T, c.lookup x = none) ∧ ScopesRel mem cs []
+  | [], _ :: _ => False
 
 /-- The mangled names bound (to tracked identifiers) in one level / in all levels. -/
 def levelNames (sc : List (String × String)) : List String := (sc.filter fun p => T.contains p.1).map (·.2)
@@ -156,7 +160,13 @@ theorem ScopesRel.lookup {mem} : ∀ {cs : CScopes} {ss : SScopes}, ScopesRel T 
   | cons c cs ih =>
     intro ss h x hx
     cases ss with
-    | nil => exact h.elim
+    | nil =>
+      obtain ⟨h1, h2⟩ := h
+      have hr := ih h2 x hx
+      simp only [ρS, List.findSome?_cons, lookupScopes, h1 x hx] at hr ⊢
+      cases h3 : List.findSome? (fun sc => List.lookup x sc) cs with
+      | some m => simp only [h3] at hr
+      | none => trivial
     | cons s ss =>
       obtain ⟨h1, h2⟩ := h
       have hl := h1 x hx
@@ -215,7 +225,7 @@ theorem ScopesRel.tail {mem} {cs : CScopes} {ss : SScopes} (h : ScopesRel T σ l
     | nil => trivial
     | cons _ _ => exact h.elim
   | cons c cs => cases ss with
-    | nil => exact h.elim
+    | nil => exact h.2
     | cons s ss => exact h.2
 
 theorem LevelRel.mem_congr {mem mem'} {c : List (String × String)} {s : List (String × Val)}
@@ -244,10 +254,10 @@ theorem ScopesRel.mem_congr {mem mem'} : ∀ {cs : CScopes} {ss : SScopes},
   | nil => intro ss _ h; cases ss <;> exact h
   | cons c cs ih =>
     intro ss hm h
+    simp only [liveNames, List.flatMap_cons, List.mem_append] at hm
     cases ss with
-    | nil => exact h.elim
+    | nil => exact ⟨h.1, ih (fun m hmm => hm m (Or.inr hmm)) h.2⟩
     | cons s ss =>
-      simp only [liveNames, List.flatMap_cons, List.mem_append] at hm
       exact ⟨h.1.mem_congr T σ lim mp (fun m hmm => hm m (Or.inl hmm)),
         ih (fun m hmm => hm m (Or.inr hmm)) h.2⟩
 
@@ -411,55 +421,66 @@ theorem StRel.declare {mod T N σ lim mp ss mem} {env : CEnv} (hg : Good T N σ 
     have hinN := h.inN
     have hnamed := h.named
     rw [hcs] at hscopes hnodup hinN hnamed hkeep hfresh
-    cases ss with
-    | nil => exact hscopes.elim
-    | cons s srest =>
-      obtain ⟨hl, hrest⟩ := hscopes
-      simp only [liveNames, List.flatMap_cons, List.mem_append] at hkeep hfresh hinN
-      refine ⟨⟨?_, ?_⟩, ?_, ?_, ?_⟩
-      · intro y hy
-        by_cases hyx : y = x
-        · subst hyx; simpa [List.lookup_cons] using hslot
-        · have hb : (y == x) = false := by simpa using hyx
-          have := (hl.mem_congr T σ lim mp (fun m hm => hkeep m (Or.inl hm))) y hy
-          simpa [List.lookup_cons, hb, lookup_filter_ne _ _ _ hyx] using this
-      · exact ScopesRel.mem_congr T σ lim mp (fun m hm => hkeep m (Or.inr hm)) hrest
-      · simp only [liveNames, List.flatMap_cons] at hnodup ⊢
-        have hsub : (levelNames T ((x, mangleName mod x (cnt env.vm x)) :: c.filter (·.1 != x)) ++
-            List.flatMap (levelNames T) crest).Sublist
-            (mangleName mod x (cnt env.vm x) :: (levelNames T c ++ List.flatMap (levelNames T) crest)) := by
-          have h1 : (levelNames T ((x, mangleName mod x (cnt env.vm x)) :: c.filter (·.1 != x))).Sublist
-              (mangleName mod x (cnt env.vm x) :: levelNames T c) := by
-            unfold levelNames
-            have hc : T.contains x = true := by simpa using hx
-            simp only [List.filter_cons, hc, if_true, List.map_cons]
-            exact ((List.Sublist.filter _ List.filter_sublist).map _).cons_cons _
-          exact (h1.append (List.Sublist.refl _))
-        refine List.Sublist.nodup hsub (List.nodup_cons.mpr ⟨?_, hnodup⟩)
-        intro hmem
-        rcases List.mem_append.mp hmem with hm | hm
-        · exact hfresh _ (Or.inl hm) rfl
-        · exact hfresh _ (Or.inr hm) rfl
-      · intro m hm
-        simp only [liveNames, List.flatMap_cons, List.mem_append] at hm
-        rcases hm with hm | hm
-        · unfold levelNames at hm
+    simp only [liveNames, List.flatMap_cons, List.mem_append] at hkeep hfresh hinN
+    have hscopes' : ScopesRel T σ lim mp (memSetL mem (mp - (σ (mangleName mod x (cnt env.vm x)) : Int)) v)
+        (((x, mangleName mod x (cnt env.vm x)) :: c.filter (·.1 != x)) :: crest) (declScopes x v ss) := by
+      cases ss with
+      | nil =>
+        obtain ⟨hl0, hrest⟩ := hscopes
+        refine ⟨?_, ?_⟩
+        · intro y hy
+          by_cases hyx : y = x
+          · subst hyx; simpa [List.lookup_cons] using hslot
+          · have hb : (y == x) = false := by simpa using hyx
+            simp [List.lookup_cons, hb, lookup_filter_ne _ _ _ hyx, hl0 y hy]
+        · exact ScopesRel.mem_congr T σ lim mp (fun m hm => hkeep m (Or.inr hm)) hrest
+      | cons s srest =>
+        obtain ⟨hl, hrest⟩ := hscopes
+        refine ⟨?_, ?_⟩
+        · intro y hy
+          by_cases hyx : y = x
+          · subst hyx; simpa [List.lookup_cons] using hslot
+          · have hb : (y == x) = false := by simpa using hyx
+            have := (hl.mem_congr T σ lim mp (fun m hm => hkeep m (Or.inl hm))) y hy
+            simpa [List.lookup_cons, hb, lookup_filter_ne _ _ _ hyx] using this
+        · exact ScopesRel.mem_congr T σ lim mp (fun m hm => hkeep m (Or.inr hm)) hrest
+    refine ⟨hscopes', ?_, ?_, ?_⟩
+    · simp only [liveNames, List.flatMap_cons] at hnodup ⊢
+      have hsub : (levelNames T ((x, mangleName mod x (cnt env.vm x)) :: c.filter (·.1 != x)) ++
+          List.flatMap (levelNames T) crest).Sublist
+          (mangleName mod x (cnt env.vm x) :: (levelNames T c ++ List.flatMap (levelNames T) crest)) := by
+        have h1 : (levelNames T ((x, mangleName mod x (cnt env.vm x)) :: c.filter (·.1 != x))).Sublist
+            (mangleName mod x (cnt env.vm x) :: levelNames T c) := by
+          unfold levelNames
           have hc : T.contains x = true := by simpa using hx
-          simp only [List.filter_cons, hc, if_true, List.map_cons, List.mem_cons] at hm
-          rcases hm with rfl | hm
-          · exact hN
-          · exact hinN m (Or.inl ((levelNames_filter_sublist T c _).mem hm))
-        · exact hinN m (Or.inr hm)
-      · intro sc hsc' p hp hpT
-        simp only [List.mem_cons] at hsc'
-        rcases hsc' with rfl | hsc'
-        · simp only [List.mem_cons] at hp
-          rcases hp with rfl | hp
-          · exact hnamedNew
-          · obtain ⟨c', e, hlt⟩ := hnamed c (by simp) p (List.mem_filter.mp hp).1 hpT
-            exact ⟨c', e, Nat.lt_of_lt_of_le hlt (hvm _)⟩
-        · obtain ⟨c', e, hlt⟩ := hnamed sc (by simp [hsc']) p hp hpT
+          simp only [List.filter_cons, hc, if_true, List.map_cons]
+          exact ((List.Sublist.filter _ List.filter_sublist).map _).cons_cons _
+        exact (h1.append (List.Sublist.refl _))
+      refine List.Sublist.nodup hsub (List.nodup_cons.mpr ⟨?_, hnodup⟩)
+      intro hmem
+      rcases List.mem_append.mp hmem with hm | hm
+      · exact hfresh _ (Or.inl hm) rfl
+      · exact hfresh _ (Or.inr hm) rfl
+    · intro m hm
+      simp only [liveNames, List.flatMap_cons, List.mem_append] at hm
+      rcases hm with hm | hm
+      · unfold levelNames at hm
+        have hc : T.contains x = true := by simpa using hx
+        simp only [List.filter_cons, hc, if_true, List.map_cons, List.mem_cons] at hm
+        rcases hm with rfl | hm
+        · exact hN
+        · exact hinN m (Or.inl ((levelNames_filter_sublist T c _).mem hm))
+      · exact hinN m (Or.inr hm)
+    · intro sc hsc' p hp hpT
+      simp only [List.mem_cons] at hsc'
+      rcases hsc' with rfl | hsc'
+      · simp only [List.mem_cons] at hp
+        rcases hp with rfl | hp
+        · exact hnamedNew
+        · obtain ⟨c', e, hlt⟩ := hnamed c (by simp) p (List.mem_filter.mp hp).1 hpT
           exact ⟨c', e, Nat.lt_of_lt_of_le hlt (hvm _)⟩
+      · obtain ⟨c', e, hlt⟩ := hnamed sc (by simp [hsc']) p hp hpT
+        exact ⟨c', e, Nat.lt_of_lt_of_le hlt (hvm _)⟩
 
 /-! ## Assignment -/
 
@@ -521,7 +542,11 @@ theorem assign_scopes {mod T N σ lim mp vm mem} (hg : Good T N σ lim mp) (x : 
   | cons c cs ih =>
     intro ss hrel hnamed hnodup hinN hρ
     cases ss with
-    | nil => exact hrel.elim
+    | nil =>
+      -- no tracked identifier is bound in the outer levels: `ρS … x = some m` is impossible
+      have := ScopesRel.lookup T σ lim mp (cs := c :: cs) (ss := []) hrel x hx
+      rw [hρ] at this
+      simp [lookupScopes] at this
     | cons s ss =>
       obtain ⟨hl, hrest⟩ := hrel
       simp only [liveNames, List.flatMap_cons] at hnodup hinN
